@@ -331,7 +331,14 @@ namespace verif {
         {
             std::lock_guard<std::mutex> l(m);
             auto& v = violations[key];
-            if (v.first++ == 0) v.second = detail;
+            if (v.first++ == 0)
+            {
+                v.second = detail;
+                // also emit at once: the process may not live long enough to print the result line
+                std::string line = "@@VIOLATION {\"key\":\"" + jesc(key) + "\",\"detail\":\"" + jesc(detail) + "\"}\n";
+                std::fputs(line.c_str(), stdout);
+                std::fflush(stdout);
+            }
         }
         void sample(std::string const& json_value)
         {
